@@ -296,6 +296,38 @@ def partial_members(run):
     return n
 
 
+def shared_instance_histories(run):
+    """one instrumentation object (a recorder, a flat and a nested combined one) serves several requests in a row, including requests that die - unexpected resolver
+    exception, syntax error, validation error - : every request's own stage trace is the trace a fresh object would record (paired, nested, at most once), whatever the
+    earlier requests left behind"""
+    from py_gql.execution import MultiInstrumentation
+    n = 0
+    q_ok = "{ me { name age } count }"
+    histories = [[("boom", q_ok, {("me", "name"): ("boom", "unexpected")}), ("ok", q_ok, {})],
+                 [("boom", q_ok, {("count",): ("boom", "unexpected")}), ("boom", q_ok, {("me",): ("boom", "unexpected")}), ("ok", q_ok, {}), ("ok", q_ok, {})],
+                 [("syntax", "{ me { name ", {}), ("ok", q_ok, {}), ("validation", "{ nope }", {}), ("ok", q_ok, {})]]
+    for cfg in ("blocking-executor", "executor-blocking", "executor-asyncio"):
+        for shape in ("single", "flat", "nested"):
+            for hist in histories:
+                log = []
+                members = [make_instr("i%d" % k, log) for k in range(3)]
+                instr = members[0] if shape == "single" else MultiInstrumentation(*members) if shape == "flat" else MultiInstrumentation(members[0], MultiInstrumentation(*members[1:]))
+                tags = ["i0"] if shape == "single" else ["i0", "i1", "i2"]
+                for step, (kind, query, world) in enumerate(hist):
+                    del log[:]
+                    schema = H.make_schema(asynchronous=cfg == "executor-asyncio")
+                    H.run_request(schema, query, {}, world, cfg, schedule=H.Schedule([]), instrumentation=instr)
+                    n += 1
+                    if kind == "boom":
+                        continue            # (what a request that dies leaves unfinished is not judged here; what it does to the NEXT request is)
+                    started = {"syntax": ["query", "parsing"], "validation": ["query", "parsing", "validation"], "ok": ["query", "parsing", "validation", "execution"]}[kind]
+                    for msg in check_stage_trace(log, tags, started):
+                        run.violation("hooks:stages-paired-and-nested", "request %d of a history on one %s instrumentation object (%s): %s" % (step + 1, shape, [k for k, _q, _w in hist], msg),
+                                      {"history": [k for k, _q, _w in hist], "step": step, "shape": shape, "config": cfg}, True)
+                        break
+    return n
+
+
 def check(tier, seed):
     run = Run("C16", tier, seed)
     rnd = random.Random(seed)
@@ -324,6 +356,7 @@ def check(tier, seed):
     if n == 0:
         raise MachineryDefect("nothing executed")
     n += partial_members(run)
+    n += shared_instance_histories(run)
     run.cov["evaluations"] = n
     run.cov["distinct_nontrivial"] = len(items)
     run.cov["rule"] = "%d requests (successful, partially failing, syntax / validation / variable / operation-selection errors) x resolver worlds x deferred-field " \
